@@ -18,8 +18,10 @@ Theorem C12_lcs_optimal :
 Proof. exact lcs_func_is_optimum. Qed.
 Print Assumptions C12_lcs_optimal.
 
+(* (an input whose longest common subsequence is unique, so the example does not depend on the
+   tie rule) *)
 Example C12_lcs_optimal_witness :
-  lcs_func Z Z.eqb [1; 2; 2; 3; 1; 2]%Z [2; 1; 2; 1; 3]%Z = Some [2; 1; 2]%Z
+  lcs_func Z Z.eqb [1; 2; 2; 3]%Z [2; 2; 1; 3]%Z = Some [2; 2; 3]%Z
   /\ (forall x, Z.eqb x x = true)
   /\ (forall x y, Z.eqb x y = true -> Z.eqb y x = true)
   /\ (forall x y z, Z.eqb x y = true -> Z.eqb y z = true -> Z.eqb x z = true).
